@@ -80,6 +80,9 @@ static bool gen_regex(zckDL *dl) {
     dl->dl_regex = zmalloc(sizeof(regex_t));
     if(!dl->dl_regex || !create_regex(dl->zck, dl->dl_regex, regex_n)) {
         free(regex_n);
+        /* Never leave an allocated but uncompiled regex behind */
+        free(dl->dl_regex);
+        dl->dl_regex = NULL;
         return false;
     }
     free(regex_n);
@@ -89,6 +92,13 @@ static bool gen_regex(zckDL *dl) {
     dl->end_regex = zmalloc(sizeof(regex_t));
     if(!dl->end_regex || !create_regex(dl->zck, dl->end_regex, regex_e)) {
         free(regex_e);
+        free(dl->end_regex);
+        dl->end_regex = NULL;
+        /* dl_regex is compiled and stays usable, but without end_regex we
+         * have to start again next time */
+        regfree(dl->dl_regex);
+        free(dl->dl_regex);
+        dl->dl_regex = NULL;
         return false;
     }
     free(regex_e);
@@ -241,8 +251,11 @@ size_t multipart_get_boundary(zckDL *dl, char *b, size_t size) {
     if(dl->hdr_regex == NULL) {
         char *regex = "boundary *= *(.*?) *\r";
         dl->hdr_regex = zmalloc(sizeof(regex_t));
-        if(!dl->hdr_regex || !create_regex(dl->zck, dl->hdr_regex, regex))
+        if(!dl->hdr_regex || !create_regex(dl->zck, dl->hdr_regex, regex)) {
+            free(dl->hdr_regex);
+            dl->hdr_regex = NULL;
             return 0;
+        }
     }
 
     /* Copy buffer to null-terminated string because POSIX regex requires null-
